@@ -1712,6 +1712,24 @@ fn tagfilter_block(input: &[u8], o: &mut dyn Write) -> io::Result<()> {
     Ok(())
 }
 
+/// Verification hook: the crate-private `tagfilter`.
+#[cfg(comrak_verif)]
+pub fn verif_tagfilter(literal: &[u8]) -> bool {
+    tagfilter(literal)
+}
+
+/// Verification hook: the crate-private `tagfilter_block`.
+#[cfg(comrak_verif)]
+pub fn verif_tagfilter_block(input: &[u8], o: &mut dyn Write) -> io::Result<()> {
+    tagfilter_block(input, o)
+}
+
+/// Verification hook: the crate-private `dangerous_url`.
+#[cfg(comrak_verif)]
+pub fn verif_dangerous_url(input: &[u8]) -> bool {
+    dangerous_url(input)
+}
+
 fn dangerous_url(input: &[u8]) -> bool {
     scanners::dangerous_url(input).is_some()
 }
